@@ -196,7 +196,7 @@ def run(rep, tier, seed, only=None):
     if only and only.startswith("site:"):
         fam = only.split(":", 1)[1]
         only = "sites"
-    for nm, f in (("generic", sec_generic), ("sites", lambda r: sec_sites(r, tier, fam)), ("labels", sec_labels)):
+    for nm, f in (("generic", sec_generic), ("sites", lambda r: sec_sites(r, tier, fam)), ("labels", sec_labels), ("finitetables", lambda r: __import__("contracts.c07", fromlist=["x"]).sec_finite_kernels(r, tier)), ("special", H.special_functions_contract)):
         if only and only not in nm:
             continue
         rep.add(guarded(f"C03/{nm}", lambda f=f: (f(rep), [])[1]))
